@@ -23,7 +23,7 @@ from ..boot import VERIF
 
 ID = "C10"
 LEVEL = "exploration"
-N = {"quick": 40, "thorough": 1500}
+N = {"quick": 64, "thorough": 1500}
 BUDGET_S = {"quick": 150, "thorough": 1500}
 CASE_TIMEOUT_S = 400
 RULE = ("three seeded experiments: (hashseed) one bundle run in 3 fresh interpreters under PRNG-chosen PYTHONHASHSEED values; "
@@ -79,6 +79,10 @@ def _variants(rng, base, k):
         tries += 1
         s = clone(base)
         r = rng.random()
+        if len(out) == 1:
+            # the first variant always collides on one of the two process-global objects the property names:
+            # the crop catalogue entry (same crop, different override) or the compartment list (same soil, same length)
+            r = rng.choice([0.05, 0.25])
         name = s["crop"]["name"]
         if r < 0.18:
             key = rng.choice(["CCx", "Zmax", "WP", "HI0", "Aer", "Zmin"])
